@@ -395,6 +395,70 @@ func c02Oracle(pl *c02Plan, insts []*c02Inst, ops []*c02OpRec, horizon time.Dura
 			return Viol("C02/job-never-finished", "job %s still running at horizon", in.name)
 		}
 	}
+	// a job that nothing has withdrawn or started yet is known to the scheduler under its name;
+	// a periodic job stays known (and its name taken) however often it has run
+	for _, o := range ops {
+		name := pl.Jobs[o.op.Job].Name
+		if o.op.Kind == "cancelprefix" || o.op.Kind == "ctxcancel" || o.op.Kind == "cancelif" || o.op.Kind == "runif" {
+			continue
+		}
+		var only *c02Inst
+		n := 0
+		for _, in := range insts {
+			if in.name == name && in.schedCallStep <= o.retStep && !(o.op.Kind == "resched" && o.err == nil && in == o.inst) {
+				only = in
+				n++
+			}
+		}
+		if n != 1 || only.schedRetStep >= o.callStep || only.ctxCancelled {
+			continue
+		}
+		in := only
+		disturbed := false
+		for _, q := range ops {
+			if q == o || !sameName(q, in) || q.callStep > o.retStep {
+				continue
+			}
+			switch q.op.Kind {
+			case "cancel", "cancelif", "cancelprefix", "ctxcancel":
+				disturbed = true
+			case "run", "runif":
+				if !in.periodic {
+					disturbed = true
+				}
+			}
+		}
+		if disturbed || (!in.periodic && in.at <= o.retT+1) {
+			continue
+		}
+		out.Probes["known-job-checked"]++
+		kind := "one-off"
+		if in.periodic {
+			kind = "periodic"
+		}
+		switch o.op.Kind {
+		case "exists":
+			if o.result != "true" {
+				return Viol("C02/live-job-unknown", "%s job %s (scheduled at %v, never cancelled) is not reported by JobExists at %v", kind, name, in.schedAt, o.callT)
+			}
+		case "list":
+			if !strings.Contains(","+o.result+",", ","+name+",") {
+				return Viol("C02/live-job-unknown", "%s job %s (scheduled at %v, never cancelled) is missing from ListJobs at %v: [%s]", kind, name, in.schedAt, o.callT, o.result)
+			}
+		case "cancel":
+			if o.err != nil {
+				return Viol("C02/live-job-unknown", "%s job %s (scheduled at %v, never cancelled before): CancelJob at %v returned %v", kind, name, in.schedAt, o.callT, o.err)
+			}
+		case "run":
+			if errors.Is(o.err, scheduler.ErrNoSuchJob) {
+				return Viol("C02/live-job-unknown", "%s job %s (scheduled at %v, never cancelled): RunJob at %v returned %v", kind, name, in.schedAt, o.callT, o.err)
+			}
+		case "resched":
+			if o.err == nil {
+				return Viol("C02/duplicate-name-accepted", "%s job %s is alive (scheduled at %v, never cancelled) yet a second job of that name was accepted at %v", kind, name, in.schedAt, o.callT)
+			}
+		}
+	}
 	// a finished job's name can be scheduled again
 	for _, o := range ops {
 		if o.op.Kind != "resched" || pl.Jobs[o.op.Job].Periodic {
